@@ -96,11 +96,7 @@ func (p *Prog) allSuccessSatisfy(s *Sym, f *ssa.Function, call *ssa.Call, req Ca
 		}
 	}
 	c := s.child(f)
-	for i, prm := range f.Params {
-		if i < len(call.Call.Args) {
-			c.params[prm] = s.Of(call.Call.Args[i])
-		}
-	}
+	s.bindArgs(c, f, call.Call.Args, call)
 	rps := c.ff.RetPoints(verdictIndex(f))
 	n := 0
 	for i := range rps {
@@ -303,11 +299,7 @@ func (p *Prog) expandFacts(s *Sym, facts []Atom, depth int) []SAtom {
 			continue
 		}
 		ch := s.child(f)
-		for i, prm := range f.Params {
-			if i < len(c.Call.Args) {
-				ch.params[prm] = s.Of(c.Call.Args[i])
-			}
-		}
+		s.bindArgs(ch, f, c.Call.Args, c)
 		var common map[string]SAtom
 		n := 0
 		for _, rp := range ch.ff.RetPoints(verdictIndex(f)) {
@@ -392,11 +384,7 @@ func (p *Prog) deepSites(s *Sym, pred func(name string) bool) []DeepSite {
 						continue
 					}
 					ch := cs.child(callee)
-					for i, prm := range callee.Params {
-						if i < len(c.Common().Args) {
-							ch.params[prm] = cs.Of(c.Common().Args[i])
-						}
-					}
+					cs.bindArgs(ch, callee, c.Common().Args, c)
 					visit(ch, callee, append(path, c), append(syms, cs), depth+1)
 				}
 			}
